@@ -36,7 +36,7 @@ def scan_assumptions(text):
         if ASSUME_PAT.search(ml):
             # name: the next fn / the assume_specification target
             ctx = ' '.join(l.strip() for l in lines[i:i + 3])
-            mo = re.search(r'assume_specification\s*\[\s*([^\]]+?)\s*\]', ctx) or re.search(r'fn\s+([A-Za-z0-9_]+)', ctx) or re.search(r'(struct|trait|type)\s+([A-Za-z0-9_]+)', ctx)
+            mo = re.search(r'assume_specification(?:<[^\[]*>)?\s*\[\s*([^\]]+?)\s*\]', ctx) or re.search(r'fn\s+([A-Za-z0-9_]+)', ctx) or re.search(r'(struct|trait|type)\s+([A-Za-z0-9_]+)', ctx)
             what = ASSUME_PAT.search(ml).group(0).strip('( ')
             for w in ('external_body', 'assume_specification', 'external_trait_specification', 'external_type_specification'):
                 if w in ml:
